@@ -6,9 +6,10 @@ from props import _mp
 
 def run(tier, seed):
     t0 = time.time()
-    obs = run_tasks(_mp.routing(tier))
+    from sx import mpinst
+    obs = run_tasks(_mp.routing(tier) + [('sx.mpinst3', 'float_output_routing', (m, t, tier)) for m, t in mpinst.configs(tier) if t >= 1])
     return finish('C19', tier, seed, obs, 'other', t0,
                   explanation='ghost-network postconditions of output and transfer with all m parties running the real code (mp mode): every message of '
                   'output(x, receivers=R, threshold) has its destination in R, every message of transfer travels along an arc of the declared graph, a party '
-                  'outside R returns None and receives nothing from the call. Secure numbers, field elements, lists. Bounded in (m,t) and the enumerated sets.',
-                  assumptions=_mp.MP_ASSUME + ['SecureFloat._output with partial receivers and group elements are not covered'], trusted_base=_mp.MP_TRUST)
+                  'outside R returns None and receives nothing from the call. Secure numbers, field elements, lists. For secure floats output to a subset, non-receivers are sent only freshly dealt shares. Bounded in (m,t) and the enumerated sets.',
+                  assumptions=_mp.MP_ASSUME + ['SecureFloat._output with partial receivers (t >= 1): every message to a non-receiver must be a row of a random_split call made by its sender in the same run (a freshly dealt share); group elements not covered'], trusted_base=_mp.MP_TRUST)
